@@ -232,17 +232,23 @@ Theorem C07_seq_targets_are_requests : forall script,
   map (fun r => (rq_page r, rq_target r)) (fst (seq_run MSession script)).
 Proof. exact seq_targets_reqs. Qed.
 
-(* resuming with a caller-supplied PagingState (query_single_page / execute_single_page): every
-   attempt of the request, retries included, carries exactly that state, and the caller gets
-   what the decisions mean *)
-Theorem C07_single_page_state : forall nodes st ps, NoDup nodes -> page_ok nodes ps ->
-  (forall k, In k (fst (single_run st ps)) -> k = (0%nat, st)) /\
+(* resuming with a caller-supplied PagingState (query_single_page / execute_single_page).  That
+   every attempt carries the caller's state is how [single_run] is DEFINED (it is checked by the
+   tie, kind P, not proved).  Proved: the caller gets what the decisions mean -- the same
+   count-based outcome as a pager's page request -- for every plan that enumerates the nodes;
+   and the attempts go to nodes as the coordinator rules say (fresh plan). *)
+Theorem C07_single_page_outcome : forall nodes st ps, NoDup nodes -> page_ok nodes ps ->
+  List.length (fst (single_run st ps)) = List.length (fst (fetch_one MSession None ps)) /\
   match single_expected (List.length nodes) ps with
   | PoResp r => exists c, snd (single_run st ps) = FCompleted c r
   | PoErr e => snd (single_run st ps) = FFailed e
   | PoIgnored e => exists c, snd (single_run st ps) = FIgnored c
   end.
 Proof. exact single_thm. Qed.
+
+Theorem C07_single_page_targets : forall ps, plan_fine ps ->
+  follows (ps_faults ps) None [] (fst (fetch_one MSession None ps)) = true.
+Proof. exact single_targets. Qed.
 
 (* ---- non-vacuity: concrete scripts and schedules ---------------------------------------- *)
 Definition ex_script : list pscript :=
@@ -466,4 +472,5 @@ Print Assumptions C07_early_timeout_cut.
 Print Assumptions C07_early_timeout_stream.
 Print Assumptions C07_coordinator_stability.
 Print Assumptions C07_seq_targets_are_requests.
-Print Assumptions C07_single_page_state.
+Print Assumptions C07_single_page_outcome.
+Print Assumptions C07_single_page_targets.
